@@ -30,6 +30,7 @@ def prove(assumptions, goal, timeout_ms=DEFAULT_TIMEOUT_MS, seed=0, use_cvc5=Tru
     t0 = time.time()
     neg = z3.Not(goal)
     fs = [f for f in assumptions if not z3.is_true(f)] + [neg] + list(extra)
+    fs = propagate_constants(fs)
     inst = axioms.instantiate(fs)
     # portfolio: nlsat tactic (fast on pure polynomial identities, gives up at once
     # otherwise) -> z3 default (short) -> cvc5 -> z3 default (full budget, other seed)
@@ -67,6 +68,40 @@ def prove(assumptions, goal, timeout_ms=DEFAULT_TIMEOUT_MS, seed=0, use_cvc5=Tru
     if r2 == z3.sat:
         return Verdict("failed", time.time() - t0, "z3(seed2)", model=s2.model(), n_instances=len(inst))
     return Verdict("unknown", time.time() - t0, "z3+nlsat+cvc5", n_instances=len(inst), reason=reason)
+
+
+def propagate_constants(fs, rounds=3):
+    """Substitute `c == numeral` facts (top-level conjuncts) everywhere, so that e.g. a
+    Constant child whose value is known to be -1 shows up as the numeral in exp/ln/ipow
+    arguments before the axiom instances are generated.  Equivalence-preserving."""
+    for _ in range(rounds):
+        subst = []
+        for f in fs:
+            for g in (f.children() if z3.is_and(f) else [f]):
+                if z3.is_eq(g):
+                    a, b = g.arg(0), g.arg(1)
+                    if z3.is_const(b) and b.decl().kind() == z3.Z3_OP_UNINTERPRETED and sym.is_concrete_num(a):
+                        a, b = b, a
+                    if z3.is_const(a) and a.decl().kind() == z3.Z3_OP_UNINTERPRETED and sym.is_concrete_num(b) \
+                            and a.sort() == b.sort():
+                        subst.append((a, b))
+        if not subst:
+            break
+        new = []
+        changed = False
+        for f in fs:
+            g = z3.simplify(z3.substitute(f, *subst))
+            if z3.is_true(g):
+                continue
+            if g.get_id() != f.get_id():
+                changed = True
+            new.append(g)
+        # keep the defining equalities themselves
+        new += [a == b for a, b in subst]
+        fs = new
+        if not changed:
+            break
+    return fs
 
 
 def _cvc5_check(s, timeout_ms):
